@@ -11,8 +11,13 @@ let suites : (string * (Sexp.t -> Sexp.t -> Verdict.t)) list = [
   "w_c03", O_c03.run;
   "w_c04", O_c04.run;
   "w_c05", O_c05.run;
+  "w_c07", O_c07.run;
   "w_c08", O_c08.run;
+  "w_c11", O_c11.run;
   "w_c12", O_c12.run;
+  "w_c13", O_c13.run;
+  "w_c14", O_c14.run;
+  "w_c20", O_c20.run;
   "codec", S_codec.run;
   "cenc", S_codec.run_enc;
   "ctopic", S_codec.run_topic;
